@@ -158,6 +158,8 @@ def check(prop, tier, seed):
                 kf = [k for k in kfs if match_finding(k, prop, j, tag, ob['name'])]
                 if kf:
                     known.append((kf[0], j, ob, tag))
+                    if not j.bounded:
+                        job_ob -= 1      # reported as KNOWN-FINDING, counted separately (not an obligation of the proof claim)
                 else:
                     violations.append((j, r, ob, tag))
             else:
@@ -254,7 +256,8 @@ def check(prop, tier, seed):
             'solver_runs_reused_from_content_cache': sum(1 for j, r in results if r.get('cached')),
             'samples': samples or [{'note': 'no postcondition obligation attributed'}],
             'bounded_parts': bounded_parts, 'bounded_obligations_not_counted': n_bounded,
-            'known_findings_hit': [k[0].get('id') for k in known],
+            'known_findings_hit': sorted(set(k[0].get('id') for k in known)),
+            'obligations_failing_as_listed_known_findings': len(known),
             'solver_s_total': round(sum(f['solver_s'] for f in fn_table), 1),
         },
         'assumptions': sorted(set(assumptions)),
